@@ -94,6 +94,10 @@ func (s *Handler) Initialize() {
 	s.chInstanceSetReady = make(chan defs.PathSourceStaticSetReadyReq)
 	s.chInstanceSetNotReady = make(chan defs.PathSourceStaticSetNotReadyReq)
 
+	if verifNewInstance(s) {
+		return
+	}
+
 	switch {
 	case strings.HasPrefix(s.Conf.Source, "rtsp://") ||
 		strings.HasPrefix(s.Conf.Source, "rtsps://") ||
